@@ -103,7 +103,7 @@ def dialect_spec(rng, i):
     spec = {"name": f"D{i}", "opts": {}, "date": None, "int": None}
     x = rng.random()
     if x < 0.6:
-        spec["date"] = rng.choice(["both", "both", "ser", "de"])
+        spec["date"] = rng.choice(["both", "both", "ser", "de", "obj", "obj"])
     if rng.random() < 0.3:
         spec["int"] = "both"
     for o in ("omit_none", "omit_default", "serialize_by_alias", "namedtuple_as_dict"):
@@ -114,11 +114,30 @@ def dialect_spec(rng, i):
     return spec
 
 
+FMT_SRC = """
+def _mk_fmt():
+    g = globals()
+    if '_Fmt' not in g:
+        class Fmt(SerializationStrategy):
+            def __init__(self, tag):
+                self.tag = tag
+            def serialize(self, d):
+                return self.tag + ':' + d.isoformat()
+            def deserialize(self, s):
+                return datetime.date.fromisoformat(s.split(':', 1)[-1])
+        g['_Fmt'] = Fmt
+    return g['_Fmt']
+"""
+
+
 def dialect_src(spec, name=None, i=0):
     name = name or spec["name"]
     ss = []
     tag = spec["name"]
-    if spec["date"]:
+    if spec["date"] == "obj":
+        # instances of ONE strategy class, told apart only by their state (every dialect has its own)
+        ss.append(f"datetime.date: _mk_fmt()({tag!r})")
+    elif spec["date"]:
         parts = []
         if spec["date"] in ("both", "ser"):
             parts.append(f"'serialize': (lambda d: '{tag}:' + d.isoformat())")
@@ -205,7 +224,7 @@ def part_a(seed, tier, rec, rng):
     fmt = rng.choice(list(FORMAT_BASES))
     base, to_m, from_m = FORMAT_BASES[fmt]
     specs = [dialect_spec(rng, i) for i in range(1, 6)]
-    dsrc = "".join(dialect_src(s) for s in specs)
+    dsrc = FMT_SRC + "".join(dialect_src(s) for s in specs)
     fam = Family("c13a")
     twins = []
     try:
@@ -311,7 +330,7 @@ def part_b(seed, tier, rec, rng):
     spec = dialect_spec(rng, 1)
     fam = Family("c13b")
     try:
-        fam.exec_src(SHAPE_SRC + dialect_src(spec, "D") + dialect_src(spec, "Dpristine"))
+        fam.exec_src(FMT_SRC + SHAPE_SRC + dialect_src(spec, "D") + dialect_src(spec, "Dpristine"))
         mod = fam.module
         import datetime
         vals = [mod.A(1), mod.A(2, datetime.date(2020, 5, 6), mod.NT(3, "q"), 7, "x", mod.In(datetime.date(2021, 1, 1), 9), [datetime.date(2022, 2, 2)]),
